@@ -481,6 +481,7 @@ func e2eComparable(evs []Event, q Query, l LayoutCfg) bool {
 type evalCtx struct {
 	sum   *vhlib.Summary
 	win   []string
+	pflag []string
 	bidx  []string
 	e2e   []string
 	mu    sync.Mutex
@@ -516,6 +517,9 @@ func (c *evalCtx) evaluate(st Stream, res streamResult) {
 		}
 		if l.DumpRanges != "" {
 			c.blockIndexCases(st, l, out)
+		}
+		if len(out.Pqs) > 0 {
+			c.pqsFlagCases(st, l, out)
 		}
 		for qi, q := range st.Queries {
 			got := out.Obs[qi]
@@ -629,6 +633,100 @@ func (c *evalCtx) evaluate(st Stream, res streamResult) {
 				detail += "; layout " + other + " gives the expected answer"
 			}
 			c.sum.Fail(class, detail, map[string]interface{}{"stream": st.Name, "events": docs, "layout": l, "query": q.Text, "got": got, "want": want[qi]})
+		}
+	}
+}
+
+// rotated segments of a layout: groups of blocks (event indices), in the order of their earliest event
+func layoutSegments(l LayoutCfg, n int) [][][]int {
+	blocks := layoutBlocks(l, n)
+	var segs [][][]int
+	if l.Rotate <= 0 {
+		if l.Final {
+			segs = append(segs, blocks)
+		}
+	} else {
+		for i := 0; i < len(blocks); i += l.Rotate {
+			j := i + l.Rotate
+			if j > len(blocks) {
+				j = len(blocks)
+			}
+			if j-i == l.Rotate || l.Final {
+				segs = append(segs, blocks[i:j])
+			}
+		}
+	}
+	minId := func(sg [][]int) int {
+		m := 1 << 30
+		for _, b := range sg {
+			for _, e := range b {
+				if e < m {
+					m = e
+				}
+			}
+		}
+		return m
+	}
+	sort.Slice(segs, func(i, j int) bool { return minId(segs[i]) < minId(segs[j]) })
+	return segs
+}
+
+// bookkeeping of the persistent queries after the last rotation (pqmr file kept, segment not on the empty-results
+// list) against "some event of the segment matches": property oracle + Coq case (seg_nonempty over the blocks)
+func (c *evalCtx) pqsFlagCases(st Stream, l LayoutCfg, out *WorkerOut) {
+	segs := layoutSegments(l, len(st.Events))
+	byText := map[string]Query{}
+	for _, q := range st.Queries {
+		byText[q.Text] = q
+	}
+	seen := map[string]bool{}
+	for _, ps := range out.Pqs {
+		q, ok := byText[ps.Query]
+		if !ok || seen[ps.Pqid] {
+			continue
+		}
+		seen[ps.Pqid] = true
+		if _, isAll := q.P.(pAll); isAll {
+			continue
+		}
+		if len(ps.Segs) != len(segs) {
+			c.sum.HarnessError(fmt.Sprintf("stream %s layout %s query `%s`: %d rotated segments observed, %d expected", st.Name, l.Name, q.Text, len(ps.Segs), len(segs)))
+			continue
+		}
+		for si, sg := range segs {
+			o := ps.Segs[si]
+			var bl []string
+			any := false
+			for _, b := range sg {
+				var ms []string
+				for _, ei := range b {
+					m := q.P.match(st.Events[ei])
+					any = any || m
+					ms = append(ms, cb(m))
+				}
+				bl = append(bl, vhlib.CoqList(ms))
+			}
+			nonEmpty := o.HasPqmr && !o.Empty
+			c.pflag = append(c.pflag, fmt.Sprintf("(%s, %s)", vhlib.CoqList(bl), cb(nonEmpty)))
+			c.sum.Eval(fmt.Sprintf("pqsflag/%s/%s/%s/%d", st.Name, l.Name, ps.Pqid, si), any)
+			c.sum.Count("direct/pqs_segment_flag")
+			if any && !nonEmpty {
+				var per []string
+				for _, b := range sg {
+					k := 0
+					for _, ei := range b {
+						if q.P.match(st.Events[ei]) {
+							k++
+						}
+					}
+					per = append(per, strconv.Itoa(k))
+				}
+				docs := make([]string, len(st.Events))
+				for i, e := range st.Events {
+					docs[i] = e.doc()
+				}
+				c.sum.Fail("pqs_segment_marked_empty_despite_matches", fmt.Sprintf("persistent query `%s` (registered before ingest), layout %s: rotated segment %d has %s matching events in its %d blocks, but after rotation its pqmr file exists=%v and the segment is on the query's empty-results list=%v, so the segment is skipped when the query is answered from persistent results", q.Text, l.Name, si, strings.Join(per, "/"), len(sg), o.HasPqmr, o.Empty), map[string]interface{}{"stream": st.Name, "events": docs, "layout": l, "query": q.Text, "segment": si, "observed": o})
+			}
 		}
 	}
 }
@@ -1047,6 +1145,72 @@ func (p pGlobNum) match(e Event) bool {
 	return globMatch(strings.ToLower(p.Pat), strings.ToLower(t))
 }
 
+// persistent queries whose matching events sit in the EARLY blocks of a segment while the last flushed block(s) hold
+// none (and the mirrored order), registered before ingest, rotated; the listener's tick that writes the empty-results
+// lists is driven directly (hook) on a first-boot node, and once on a node whose segmeta file already exists with the
+// real 10 s ticker; record queries and group-by statistics, against the unregistered layouts and the oracle
+func pqsLastBlockStream(rng *vhlib.Rng, idx int, thorough bool, realTicker bool) Stream {
+	k := rng.Range(2, 3)
+	nb := rng.Range(3, 5)
+	if thorough {
+		nb = rng.Range(3, 8)
+	}
+	n := k * nb
+	early := rng.Range(1, nb-1) // blocks 0..early-1 may hold the early words; the blocks after them never do
+	evs := make([]Event, n)
+	for i := range evs {
+		e := Event{Id: i}
+		b := i / k
+		w := vhlib.Pick(rng, []string{"beta", "gamma"})
+		switch {
+		case b < early && (i%k == 0 || rng.Chance(50)):
+			w = "alpha"
+		case b == nb-1 && (i%k == 0 || rng.Chance(40)):
+			w = "omega"
+		}
+		e.set("w", sv(w))
+		e.set("n", iv(int64(i)))
+		e.set("g", sv(vhlib.Pick(rng, grpPool)))
+		evs[i] = e
+	}
+	var qs []Query
+	addQ := func(text string, p Pred, cols []string) {
+		qs = append(qs, Query{Text: text, P: p, Kind: "text", Cols: cols},
+			Query{Text: text + " | stats count, sum(n) by g", P: p, Kind: "stats", Stats: []string{"count", "sum(n)"}, By: "g"})
+	}
+	kk := int64(early * k)
+	addQ("w=alpha", pStrEq{"w", "alpha", false}, []string{"w"})
+	addQ("w=omega", pStrEq{"w", "omega", false}, []string{"w"})
+	addQ("w=beta", pStrEq{"w", "beta", false}, []string{"w"})
+	addQ("w=zeta", pStrEq{"w", "zeta", false}, []string{"w"})
+	addQ("n<"+strconv.FormatInt(kk, 10), pCmp{"n", 2, float64(kk)}, []string{"n"})
+	addQ("n>="+strconv.Itoa(n-k), pCmp{"n", 5, float64(n - k)}, []string{"n"})
+	addQ("w=alpha n<"+strconv.FormatInt(kk-1, 10), pAnd{pStrEq{"w", "alpha", false}, pCmp{"n", 2, float64(kk - 1)}}, []string{"w", "n"})
+	// mirrored order: the blocks are ingested last-to-first, the early words end up in the last flushed blocks
+	mirror := make([]int, 0, n)
+	for b := nb - 1; b >= 0; b-- {
+		for j := 0; j < k; j++ {
+			mirror = append(mirror, b*k+j)
+		}
+	}
+	layouts := []LayoutCfg{
+		{Name: fmt.Sprintf("raw_e%d_rot", k), Every: k, Final: true, Aggs: true},
+		{Name: "raw_one_rot", Every: 0, Final: true, Aggs: true},
+		{Name: fmt.Sprintf("pqs_e%d_rot_tick", k), Every: k, Final: true, Aggs: true, PQS: true, DrainPqs: true},
+		{Name: fmt.Sprintf("pqs_e%d_rot_tick_mirror", k), Every: k, Final: true, Aggs: true, PQS: true, DrainPqs: true, Perm: mirror},
+		{Name: fmt.Sprintf("pqs_e%d_segs_tick", k), Every: k, Rotate: 2, Final: true, Aggs: true, PQS: true, DrainPqs: true},
+		{Name: "pqs_one_rot_tick", Every: 0, Final: true, Aggs: true, PQS: true, DrainPqs: true},
+		{Name: fmt.Sprintf("pqs_e%d_open", k), Every: k, Final: false, Aggs: true, PQS: true},
+	}
+	if realTicker {
+		layouts = append(layouts, LayoutCfg{Name: fmt.Sprintf("pqs_e%d_rot_restarted_10s", k), Every: k, Final: true, Aggs: true, PQS: true, Restarted: true, SettleMs: 11000})
+	}
+	for i := range layouts {
+		layouts[i].Trace = layouts[i].PQS
+	}
+	return Stream{Name: fmt.Sprintf("pl%d", idx), Events: evs, Layouts: layouts, Queries: qs}
+}
+
 func nv(i int64, text string) Val { return Val{Kind: "n", I: i, S: text} }
 
 // numeric strings mixed with JSON numbers in one column: at the block flush consolidateColumnTypes turns the strings
@@ -1151,6 +1315,13 @@ func runMeta(cfg vhlib.Config, sum *vhlib.Summary, rng *vhlib.Rng) {
 	for i := 0; i < npq; i++ {
 		streams = append(streams, pqsStream(rng.Fork(), i, cfg.Thorough()))
 	}
+	npl := 2
+	if cfg.Thorough() {
+		npl = 16
+	}
+	for i := 0; i < npl; i++ {
+		streams = append(streams, pqsLastBlockStream(rng.Fork(), i, cfg.Thorough(), i == 0 || (cfg.Thorough() && i%4 == 0)))
+	}
 	nns := 2
 	if cfg.Thorough() {
 		nns = 20
@@ -1178,4 +1349,5 @@ func runMeta(cfg vhlib.Config, sum *vhlib.Summary, rng *vhlib.Rng) {
 	shard(sum, cfg.Out, "cases_e2e", "check_e2e", ctx.e2e, 350)
 	shard(sum, cfg.Out, "cases_window", "check_window", ctx.win, 60)
 	shard(sum, cfg.Out, "cases_block_index", "check_block_index", ctx.bidx, 300)
+	shard(sum, cfg.Out, "cases_pqs_flag", "check_pqs_flag", ctx.pflag, 400)
 }
